@@ -1,8 +1,8 @@
 #!/verif/.venv/bin/python
 # Replay of a solver counterexample against the unmodified code (no shims).
-# property=C13 kernel=history label=typestate:VAR
+# property=C13 kernel=history label=typestate:SLM
 import sys
 sys.path[:0] = ['/repo' + "/pulser-core", '/repo' + "/pulser-simulation", "/verif"]
 from symx.replay import replay
 sys.exit(replay(check='checks.c13', kernel='history', shape={'device': 'virt', 'k': 3, 'first': 2},
-                assignment={'op1': 15, 'op2': 17}, label='typestate:VAR'))
+                assignment={'op1': 15, 'op2': 6}, label='typestate:SLM'))
